@@ -33,7 +33,7 @@ var phFamilies = map[string]bool{"forest": true, "forestexh": true, "undoredo": 
 	"pollardheap": true}
 
 // phDumpLimit bounds the size of a per-operation dump (nodes).
-const phDumpLimit = 4000
+const phDumpLimit = 4200
 
 func phEnabled() bool {
 	if os.Getenv("VERIF_PH") == "0" {
@@ -215,6 +215,11 @@ func famPollardHeap(g *Gen, tier string, shard, nshards int) {
 	for h := 0; h < nHist; h++ {
 		s := newSim(g, nil)
 		s.allRemember = h%3 != 2 // Pollard is always full: the flag must not matter
+		// one history in five lives in a forest of many trees (9 or more roots, rows >= 9)
+		if h%5 == 4 {
+			famPollardHeapMany(s, shard*nHist/5+h/5, tier)
+			continue
+		}
 		nBlocks := 2 + g.Intn(maxBlocks)
 		for b := 0; b < nBlocks; b++ {
 			mode := g.Intn(8)
@@ -240,5 +245,57 @@ func famPollardHeap(g *Gen, tier string, shard, nshards int) {
 				s.observeAll()
 			}
 		}
+	}
+}
+
+// famPollardHeapMany: the pointer surgery in a many-tree forest: deletions in the small trees
+// at the right edge (tree indexes 8 and up), deletions that leave one leaf of a big tree (its
+// node is moved up row by row), whole small trees emptied and overwritten by additions, undo of
+// all of that; the heap model replays every Modify/Undo and the complete pointer structure is
+// compared (up to phDumpLimit nodes), every query of the sampled observations is answered by
+// the heap model too.
+func famPollardHeapMany(s *Sim, k int, tier string) {
+	g := s.g
+	n := manyTreeCount(k)
+	if tier == "thorough" && k%8 == 7 {
+		n = hugeTreeCount(k / 8)
+	}
+	s.growTo(n)
+	s.obsRoots()
+	nBlocks := 3 + g.Intn(4)
+	for b := 0; b < nBlocks; b++ {
+		style := manyTreeStyleHeavy(g)
+		if b == 0 && k%3 == 2 {
+			style = 2
+		}
+		nAdds := manyTreeAdds(g)
+		if style == 3 {
+			nAdds = 1 + g.Intn(4) // additions overwrite the emptied roots
+		}
+		s.applyBlock(manyTreeDeletions(g, s.alive, style), nAdds)
+		s.obsRoots()
+		if g.Intn(2) == 0 {
+			s.observeAllSampled()
+		}
+		if len(s.hist) > 0 && g.Intn(3) == 0 {
+			kk := 1 + g.Intn(len(s.hist))
+			if len(s.hist) > 1 && g.Intn(3) != 0 {
+				kk = 1 + g.Intn(len(s.hist)-1) // mostly keep the big first block
+			}
+			for i := 0; i < kk; i++ {
+				s.undoLast()
+				s.obsRoots()
+			}
+			if len(s.slots) == 0 {
+				s.applyBlock(nil, manyTreeCount(k+b+1))
+				s.obsRoots()
+			}
+			s.observeAllSampled()
+		}
+	}
+	if len(s.slots) <= 1100 {
+		s.observeAll() // every position, every leaf
+	} else {
+		s.observeAllSampled()
 	}
 }
